@@ -3,6 +3,7 @@ CONSTANTS Procs = {"p1", "p2"}
           REth = {12289}
           Addrs = {1, 2}
           MaxCrash = 0
+          MaxFault = 1
           MaxPre <- Unbounded
           Mutex = TRUE
           LockedInit = TRUE
